@@ -140,7 +140,10 @@ Mutations(p) ==
 \* tails appended to the directory of a prefix (log: the prefix; witness and
 \* mirror: the prefix and an origin below it).  The harness puts decoy-out.txt
 \* next to the configured directories (so every ".." below reaches a decoy or
-\* another log's directory) and the link-* symbolic links inside each of them.
+\* another log's directory) and the link-* symbolic links inside each of them
+\* (at the top, under tile/ and under issuer/: link-out-file, link-abs-dir
+\* absolute and link-rel-out, link-out-dir, link-up relative links that leave
+\* the directory; link-in, link-in-dir links that stay inside).
 PlainTails ==
     { <<"unknown">>, <<"metrics">>, <<"health">>, <<"logs.json">>, <<"index.html">>,
       <<"tile", "index.html">>, <<"tile", "bogus">>, <<"tile", "entries", "000">>, <<"tile", "data", "000.p">>,
@@ -152,6 +155,10 @@ PlainTails ==
       <<".hidden">>, <<".config", "secret">>, <<"tile", ".hidden">>,
       <<"link-out-file">>, <<"link-out-dir", "decoy2.txt">>, <<"link-abs-dir", "decoy2.txt">>,
       <<"link-rel-out">>, <<"tile", "link-up", "decoy-out.txt">>, <<"link-in">>, <<"link-in-dir", "000">>,
+      <<"tile", "link-out-file">>, <<"tile", "link-rel-out">>, <<"tile", "link-out-dir", "decoy2.txt">>,
+      <<"tile", "link-abs-dir", "decoy2.txt">>, <<"tile", "link-in">>, <<"tile", "link-in-dir", "000">>,
+      <<"tile", "0", "link-rel-out">>, <<"tile", "data", "link-out-file">>,
+      <<"issuer", "link-out-file">>, <<"issuer", "link-rel-out">>, <<"issuer", "link-in">>,
       <<"decoy-out.txt">>, <<"D3", "checkpoint">>, <<"W1", "checkpoint">> }
 
 OddTails ==
@@ -172,7 +179,8 @@ CleanPaths(P) == {P.pre \o x.rel : x \in Layout(P.kind)}
 BasePaths(P) == {P.pre \o r : r \in BaseRel(P.kind)}
 TailPaths(P) == {a \o t : a \in Anchors(P), t \in PlainTails \cup OddTails}
 EscapePaths(P) == {a \o t : a \in Anchors(P),
-                            t \in { <<"..", "decoy-out.txt">>, <<"%2e%2e", "decoy-out.txt">>, <<"link-out-file">>,
+                            t \in { <<"..", "decoy-out.txt">>, <<"%2e%2e", "decoy-out.txt">>, <<"tile", "link-out-file">>,
+                                    <<"tile", "link-up", "decoy-out.txt">>, <<"issuer", "link-rel-out">>,
                                     <<"..", "D3", "checkpoint">>, <<"tile">>, <<"tile", "">> }}
 
 GetPaths(P) == CleanPaths(P) \cup UNION {Mutations(p) : p \in BasePaths(P)} \cup TailPaths(P)
@@ -206,6 +214,9 @@ Odd(s) == s \notin PlainSegs
 \* odd segments that cannot leave a directory
 Harmless == {"", ".", "%2e"}
 HasOdd(p) == \E i \in DOMAIN p : Odd(p[i])
+\* requests through a symbolic link of the harness's directories
+LinkSegs == {"link-out-file", "link-rel-out", "link-out-dir", "link-abs-dir", "link-up", "link-in", "link-in-dir"}
+HasLink(p) == \E i \in DOMAIN p : p[i] \in LinkSegs
 
 IsPrefixOf(a, b) == Len(a) <= Len(b) /\ SubSeq(b, 1, Len(a)) = a
 Rest(P, p) == SubSeq(p, Len(P.pre) + 1, Len(p))
